@@ -179,7 +179,7 @@ template<class T, multi::dimensionality_type D, class A> struct is_owning<multi:
 // value category used for the call
 enum Cat { CAT_LVALUE, CAT_RVALUE, CAT_CONST };
 
-template<class Fin, bool Based = false, int MaxD = 5, bool KeepD = false>
+template<class Fin, bool Based = false, int MaxD = 5, bool KeepD = false, bool NoConst = false>
 struct Interp {
 	Input const& in;
 	Ctx& ctx;
@@ -188,7 +188,7 @@ struct Interp {
 	int kend = -1;      // one past the last record to use (-1: all)
 	int nrec() const { return kend >= 0 ? std::min(kend, in.nops()) : in.nops(); }
 	int applied = 0, layout_changing = 0;
-	bool no_const = false;   // never choose the const value category (destinations of assignments must stay mutable)
+	bool no_const = NoConst;   // never choose the const value category (destinations of assignments must stay mutable)
 	bool null_root = false;  // the root owns no storage (data pointer may be null): the library asserts that a null pointer is never offset,
 	                         // so views of such roots are sliced/dropped at offset 0 only (array_ref.hpp sliced_aux_: "it is UB to offset a nullptr")
 
@@ -200,7 +200,7 @@ struct Interp {
 		if(no_const && cat % 3U == CAT_CONST) { cat = CAT_LVALUE; }
 		switch(cat % 3U) {
 			case CAT_RVALUE: if constexpr(!is_owning<std::remove_const_t<V>>::value) { ctx.desc << "&&"; auto&& w = f(std::move(v)); next(w, m2, what); return; } [[fallthrough]];
-			case CAT_CONST: if constexpr(ConstOK) { ctx.desc << "c&"; auto&& w = f(std::as_const(v)); next(w, m2, what); return; } [[fallthrough]];
+			case CAT_CONST: if constexpr(ConstOK && !NoConst) { ctx.desc << "c&"; auto&& w = f(std::as_const(v)); next(w, m2, what); return; } [[fallthrough]];
 			default: { ctx.desc << "&"; auto&& w = f(v); next(w, m2, what); return; }
 		}
 	}
@@ -274,8 +274,7 @@ struct Interp {
 				m2.offset += lo*d0.stride; m2.d[0].size = n / s; m2.d[0].stride = d0.stride*s; m2.d[0].first = d0.first / s;
 				long f = d0.first + lo, l = d0.first + hi;
 				tag("sliced("); t << f << ',' << l << ',' << s << ')';
-				auto&& w = std::as_const(v).sliced(f, l, s);
-				next(w, m2, "sliced(a,b,s)"); return;
+				if constexpr(!NoConst) { auto&& w = std::as_const(v).sliced(f, l, s); next(w, m2, "sliced(a,b,s)"); return; } else { break; }
 			}
 			case OP_STRIDED: if constexpr((D == 1) || VP_CONST_STRIDED || !is_const_v) {
 				if(d0.size < 1) { break; }
